@@ -35,7 +35,7 @@ RULE = ("ops: roundtrip (ADMGs 0-8 nodes with isolated / bidirected-only nodes, 
         "adds DAGs up to 11 nodes with sampled separation triples. A simplify/evans case is non-trivial when at least one rule changed the graph "
         "and at least two observed nodes remain; a roundtrip case when it has an edge-less node or >=2 bidirected edges.")
 ASSUMPTIONS = [
-    "clause 'separation relations among observed nodes are unchanged': simplify_dsep_invariant proves it INSIDE the LV-DAG for the walk formulation of d-connection (colliders need a descendant-or-self in Z, other inner nodes outside Z) and verdict_invariant for every test computed from the projected mixed graph; the classical equivalences walk-formulation = path-formulation and d-separation in the LV-DAG = m-separation of its projection are not mechanised: the oracle cross-checks both on every generated case (walk vs path enumeration on the input DAG; input DAG vs output DAG vs canonical DAG of the projection)",
+    "clause 'separation relations among observed nodes are unchanged': simplify_dsep_invariant (d-connection inside the LV-DAG unchanged), dsep_iff_msep_projection (= m-connection of the latent projection) and verdict_invariant (every test computed from the projected graph) are theorems for the WALK formulation of d-/m-connection (collider needs a descendant-or-self in Z, every other inner node outside Z). Not mechanised: that the walk formulation agrees with the textbook PATH formulation (a connecting walk shortens to a connecting path) and that y0's are_d_separated computes it (property C04); the oracle cross-checks walk vs path enumeration on every generated case, on the DAG and on the projection",
     "clause 'identifiability verdicts unchanged': theorem by congruence only (ID as any function of the mixed graph that respects NxMixedGraph.__eq__); that y0's identify() respects __eq__ is not proved here; the harness runs identify_outcomes on the independent projection and on y0's output for sampled queries",
     "theorem hypotheses: D.WF (distinct nodes/edges, edge endpoints are nodes, every node tagged: what building an nx.DiGraph gives), D.Acyclic, and for the names only `Function.Injective fresh` (u_i distinct) and `forall n, n < prime n` (a primed name is a longer string); bidirected self-loops are excluded from the round trip (not an ADMG)",
     "networkx topological_sort on a graph mutated during iteration is modelled as the order of the input graph (argued in Model/Latent.lean); correspondence compares results as sets, names invented for new latents are compared by their child sets",
@@ -486,6 +486,10 @@ def _proj_checks(case, in_nodes, in_edges, in_lat, out_dag, back, rng):
         for t, x in zip(triples, a):  # the walk formulation of the Lean spec must agree with path enumeration
             if ws.connected(t[0], t[1], t[2]) != x:
                 raise AssertionError(f"oracle self-check: walk and path d-connection differ on {t} in {in_edges}")
+        ms = O.MixedWalkSep(obs, di, bi)
+        for t, z in zip(triples, c):  # walk m-connection on the projection vs path d-connection in its canonical DAG
+            if ms.connected(t[0], t[1], t[2]) != z:
+                raise AssertionError(f"oracle self-check: mixed walk and canonical-DAG path connection differ on {t}")
         for t, x, y, z in zip(triples, a, b, c):
             if x != y:
                 return f"d-connection of {t[0]},{t[1]} given {list(t[2])} changed by the simplification: before {x} after {y}"
@@ -779,7 +783,7 @@ def finding_key(case, res):
 
 
 MANIFEST = {
-    "text": ("Proof: 25 Lean theorems about the executable model of graph.py (_latent_dag / to_latent_variable_dag / "
+    "text": ("Proof: 27 Lean theorems about the executable model of graph.py (_latent_dag / to_latent_variable_dag / "
              "from_latent_variable_dag) and simplify_latent.py (four rules, simplify_latent_dag, evans_simplify), for ALL "
              "well-formed inputs, no size bound. Round trip: from(to(G)) == G for every mixed graph incl. edge-less nodes "
              "and nodes already called u_i (roundtrip, toLV_is_projection). Simplification of any well-formed acyclic LV-DAG "
@@ -791,8 +795,9 @@ MANIFEST = {
              "(evans_projection, evans_id). 'Consequently' clause: simplify_dsep_invariant proves that d-connection among observed nodes given "
              "any observed conditioning set is the same inside the simplified and the original LV-DAG (walk formulation; "
              "one lemma per rule), and verdict_invariant gives equal answers for every function of the projected graph "
-             "that respects __eq__ (separation tests, ID). Not mechanised, oracle only: walk = path formulation of "
-             "d-connection, and d-separation in the LV-DAG = m-separation of the projection."),
+             "that respects __eq__ (separation tests, ID); dsep_iff_msep_projection proves that d-connection inside ANY "
+             "well-formed acyclic LV-DAG equals m-connection in its latent projection (proved by simplifying first). Not "
+             "mechanised, oracle only: the walk formulation of d-/m-connection used in these theorems = the path formulation."),
     "note": ("Trusted: Lean kernel; axioms propext/Classical.choice/Quot.sound; Spec/LatentSpec.lean (definition of latent "
              "projection, WF, Acyclic); the hand-written model tied to the code by differential sampling on every run "
              "(networkx DiGraph/topological_sort behaviour under mutation is modelled); Python string order of names is "
